@@ -167,8 +167,13 @@ pub fn emit_main(batch: &Batch, skip: &[usize]) -> String {
             continue;
         }
         if bd.origin == "derive" {
-            // the same description compiled by the attribute macro (C11)
-            s.push_str(&format!("#[pdl_derive::pdl_inline(r#\"{}\"#)]\nmod d{} {{}}\n", bd.text, bd.idx));
+            // the same description compiled by one of the two attribute macros (C11): inline text, or a file path
+            // relative to the crate root, alternating
+            if (bd.idx / 2) % 2 == 0 {
+                s.push_str(&format!("#[pdl_derive::pdl_inline(r#\"{}\"#)]\nmod d{} {{}}\n", bd.text, bd.idx));
+            } else {
+                s.push_str(&format!("#[pdl_derive::pdl(\"d{}.pdl\")]\nmod d{} {{}}\n", bd.idx, bd.idx));
+            }
         } else {
             s.push_str(&format!("mod d{} {{ include!(\"d{}.rs\"); }}\n", bd.idx, bd.idx));
         }
@@ -276,6 +281,10 @@ pub fn build(name: &str, db: DrawnBatch) -> Result<Built, String> {
     }
     for (i, c) in db.code.iter().enumerate() {
         write_if_changed(&dir.join(format!("src/d{i}.rs")), c);
+    }
+    // descriptions handed to the path-based #[pdl("...")] macro are read from files next to Cargo.toml
+    for bd in db.batch.descs.iter().filter(|d| d.origin == "derive") {
+        write_if_changed(&dir.join(format!("d{}.pdl", bd.idx)), &bd.text);
     }
     let mut skip: Vec<usize> = vec![];
     let mut build_rejects = vec![];
